@@ -7,8 +7,8 @@ NODE_TB = COMMON_TB + [
 
 CFG = {
     "props": "Props/C01.v",
-    "corr": ["Corr/NodeCorr.v", "Corr/HttpWaitCorr.v", "Corr/SyncCorr.v", "Corr/ServeCorr.v", "Corr/BootstrapCorr.v"],
-    "engines": [("httpwait", []), ("serve", []), ("bootstrap", []), ("sync", []), ("node", [])],
+    "corr": ["Corr/NodeCorr.v", "Corr/HttpWaitCorr.v", "Corr/SyncCorr.v", "Corr/ServeCorr.v", "Corr/BootstrapCorr.v", "Corr/StreamCorr.v"],
+    "engines": [("httpwait", []), ("serve", []), ("bootstrap", []), ("sync", []), ("node", []), ("stream", [])],
     "axioms": [],
     "trusted": NODE_TB + ["hypothesis vrec_unchained (unchained digests do not contain the previous signature: crypto/schemes.go DigestBeacon) is a Section hypothesis visible in the theorem statements"],
     "assumptions": ["pairing arithmetic, Lagrange interpolation in Recover and SHA-256 are not modelled (oracles)", "serving side: PublicRand's exact-round rule is modelled in Model/Serve.v; gRPC/HTTP marshalling is not modelled"],
